@@ -32,9 +32,14 @@ MaxSide(dm)  == CHOOSE m \in {dm[1], dm[2], dm[3]} : \A k \in {dm[1], dm[2], dm[
 Frontier(S, M, dm, axes) == { c \in M \ S : \E a \in axes, s \in {-1, 1} : Shift(c, a, s) \in S }
 
 \* ---------- the documented meaning: reachability = least fixpoint of one-cell-thick growth ----------
-RECURSIVE Closure(_, _, _)
-Closure(S, M, dm) == LET F == Frontier(S, M, dm, AllAxes)
-                     IN  IF F = {} THEN S ELSE Closure(S \cup F, M, dm)
+\* breadth-first: S = everything found so far, F = the cells found last (only they can have new neighbours)
+RECURSIVE Bfs(_, _, _)
+Bfs(S, F, M) == IF F = {} THEN S
+                ELSE LET N == { d \in UNION { { Shift(c, a, s) : a \in AllAxes, s \in {-1, 1} } : c \in F } :
+                                  d \in M /\ d \notin S }
+                     IN  Bfs(S \cup N, N, M)
+\* smallest set that contains S (a subset of the mask M) and every mask cell face-adjacent to a member
+Closure(S, M, dm) == Bfs(S, S, M)
 
 \* material connected, through face-adjacent material, to the bottom layer
 Reach(M, dm)    == Closure(M \cap Bottom(dm), M, dm)
